@@ -152,6 +152,26 @@ func GenIngressWorld(t *rapid.T, admin bool) *World {
 			}
 		}
 	}
+	// a namesake: a Service with the NAME of an existing one in another namespace which the analysis ignores (no selector,
+	// or a selector no workload satisfies). Services are identified by namespace AND name.
+	if len(w.Services) > 0 && len(w.Namespaces) > 1 && rapid.IntRange(0, 2).Draw(t, "svcnamesake") == 0 {
+		s := w.Services[rapid.IntRange(0, len(w.Services)-1).Draw(t, "svcnamesakeof")]
+		n2 := ns("svcnamesakens")
+		exists := false
+		for _, o := range w.Services {
+			if o.Ns == n2 && o.Name == s.Name {
+				exists = true
+			}
+		}
+		if !exists {
+			twin := Svc{Ns: n2, Name: s.Name, Ports: append([]SvcPort(nil), s.Ports...)}
+			if rapid.Bool().Draw(t, "svcnamesakesel") {
+				twin.Selector = map[string]string{"app": "nobody"}
+			}
+			pos := rapid.IntRange(0, len(w.Services)).Draw(t, "svcnamesakepos")
+			w.Services = append(w.Services[:pos], append([]Svc{twin}, w.Services[pos:]...)...)
+		}
+	}
 	svcName := func(l string, nsn string) string {
 		var c []string
 		for _, s := range w.Services {
@@ -257,6 +277,23 @@ func GenIngressWorld(t *rapid.T, admin bool) *World {
 		}
 		w.Routes = append(w.Routes, r)
 	}
+	// a locked-down application: every pod may be reached by pods only and may reach nothing, so that no connection at all
+	// exists between workloads or with IP ranges - the ingress controller (which no policy governs) still gets through
+	if rapid.IntRange(0, 9).Draw(t, "inglocked") == 0 {
+		w.ANPs, w.BANP = nil, nil
+		if rapid.Bool().Draw(t, "inglockeddropnp") {
+			w.NPs = nil
+		}
+		seen := map[string]bool{}
+		for _, x := range w.Workloads {
+			if seen[x.Ns] {
+				continue
+			}
+			seen[x.Ns] = true
+			w.NPs = append(w.NPs, NetPol{Ns: x.Ns, Name: "np-locked", PolicyTypes: []string{"Ingress", "Egress"},
+				Ingress: []Rule{{Peers: []Peer{{NsSel: &Selector{}}}}}})
+		}
+	}
 	// documents of namespace "default" written without metadata.namespace (workloads, Services, Ingresses, Routes)
 	if omitNs {
 		if w.OmitNs == nil {
@@ -338,7 +375,8 @@ func ingressPorts(w *World, W *Workload, lenient bool) (res map[int]bool, target
 				last = &w.Services[i]
 			}
 		}
-		if last == nil || last.Ns != W.Ns || !superset(W.Labels, last.Selector) {
+		// (a Service without a selector has no endpoints of its own: it selects nothing)
+		if last == nil || last.Ns != W.Ns || len(last.Selector) == 0 || !superset(W.Labels, last.Selector) {
 			return nil
 		}
 		return last
